@@ -29,7 +29,9 @@ MANIFEST = dict(
          "from models_kelvin.py / models_thickness.py: the Kelvin equation r ln(1/p) g R T = 2 gamma M/rho for the three meniscus geometries, r "
          "increasing in p on (0,1), the KJS offset, the pore-geometry -> meniscus table, Halsey and Harkins-Jura increasing in p. The recurrence "
          "model is hand-written and executed inside Coq against psd_mesoporous and the three raw functions on every run (random grids of 5-80 "
-         "points, all methods/geometries/thickness models/limits, both branches), with the implementation's own thickness/Kelvin arrays as data. "
+         "points, all methods/geometries/thickness models/limits, both branches), with the implementation's own thickness/Kelvin arrays as data; "
+         "every call carries its own adsorbate property set under ONE adsorbate name (fresh objects and one shared object edited between calls, "
+         "all calls in one process), so a property remembered from an earlier call shows up as a Kelvin-equation / width disagreement. "
          "The single-step statement is proved as a corollary for zero thickness only (with a thickness model the thinning corrections of later "
          "steps are non-zero by construction); with thickness it is checked on the implementation as 'largest peak at the step'.",
     note="Trusted: Coq kernel; Reals axioms; translator tools/py2v_charact.py (interval goals against the implementation); the hand-written recurrences "
@@ -37,6 +39,7 @@ MANIFEST = dict(
          "vectorised arithmetic = element-wise arithmetic; adsorbate property reads are oracles.",
     technique="Coq proof (induction over data lists with loop invariants; real analysis over generated formulas); model execution inside Coq vs implementation")
 
+EXTRA_TARGETS = ['Charact/QExecPsd.vo']
 HEADER = c14.HEADER.replace('Charact.QExec.', 'Charact.PsdMeso Charact.QExec Charact.QExecPsd.')
 RGAS = 8.31446261815324
 ADS = dict(molar_mass=28.0134, saturation_pressure=101325.0, liquid_density=0.808, surface_tension=8.88, cross_sectional_area=0.162)
@@ -83,13 +86,41 @@ def gen_cases(tier, seed):
         entry = rnd.choice(['iso', 'iso', 'raw'])
         if entry == 'raw':
             limits, lk = ((None, None), 'all') if kind != 'step' else (limits, lk)
+        # "any adsorbate property set": every case carries its own molar mass / liquid density / surface tension. All the isotherms of one run
+        # name the SAME adsorbate ('verif_c16'): either a fresh Adsorbate object per call or one shared object whose properties are edited
+        # between the calls - so a value remembered from an earlier call (per name, per (name, temperature), per object) is a stale one
+        r = rnd.random()
+        if r < 0.3:
+            ads, props = 'A', dict(ADS)
+        elif r < 0.45:
+            ads, props = 'B', dict(ADS2)
+        else:
+            ads, props = 'R', dict(molar_mass=round(rnd.uniform(2, 150), 4), liquid_density=round(10 ** rnd.uniform(-0.5, 0.5), 4),
+                                   surface_tension=round(10 ** rnd.uniform(0, 1.9), 3), saturation_pressure=101325.0, cross_sectional_area=0.162)
         cases.append(dict(method=method, geom=geom, branch=branch, men=men, tm=tm, km=km, p=p, v=v, limits=limits, lkind=lk, kind=kind, entry=entry,
-                          step_at=step_at, ads='A' if rnd.random() < 0.7 else 'B', T=rnd.choice([77.355, 87.3])))
+                          step_at=step_at, ads=ads, props=props, carrier=rnd.choice(['fresh', 'fresh', 'edited']), T=rnd.choice([77.355, 87.3])))
     return cases
 
 
 def ads_props(c):
-    return ADS if c['ads'] == 'A' else ADS2
+    return c['props']
+
+
+ADS_NAME = 'verif_c16'
+_SHARED = {}
+
+
+def ads_object(c):
+    """the Adsorbate the isotherm of this case carries: always named ADS_NAME, never registered"""
+    import pygaps
+    if c.get('carrier') == 'edited':
+        if 'obj' not in _SHARED:
+            _SHARED['obj'] = pygaps.Adsorbate(ADS_NAME, **dict(c['props']))
+        obj = _SHARED['obj']
+        obj.properties.clear()
+        obj.properties.update(c['props'])          # the user edits the stored properties between two analyses
+        return obj
+    return pygaps.Adsorbate(ADS_NAME, **dict(c['props']))
 
 
 def meniscus_of(c):
@@ -110,15 +141,17 @@ def models(c):
 
 def make_iso(c):
     import pygaps
-    name = cl.adsorbate('c16' + c['ads'], **ads_props(c))
+    name = cl.adsorbate('c16_placeholder', **ADS)      # the constructor needs a registered name (GUIDE); replaced below
     p, v = c['p'], c['v']
     if c['branch'] == 'ads':
         pp, vv = list(p), list(v)
     else:   # adsorption branch below the desorption branch; the analysed (desorption) data are (p, v)
         pp = list(p) + list(p[::-1])
         vv = [x * 0.9 for x in v] + list(v[::-1])
-    return pygaps.PointIsotherm(pressure=pp, loading=vv, material='verif_c16', adsorbate=name, temperature=c['T'], pressure_mode='relative',
-                                loading_basis='volume_liquid', loading_unit='cm3', material_basis='mass', material_unit='g')
+    iso = pygaps.PointIsotherm(pressure=pp, loading=vv, material='verif_c16', adsorbate=name, temperature=c['T'], pressure_mode='relative',
+                               loading_basis='volume_liquid', loading_unit='cm3', material_basis='mass', material_unit='g')
+    iso.adsorbate = ads_object(c)
+    return iso
 
 
 def run_impl(c):
@@ -273,7 +306,7 @@ def formula_goals(c, t, k, rnd):
 
 
 def run(rep, tier, seed):
-    vlib.standard_proof_phase(rep, 'C16', extra_targets=['Charact/QExecPsd.vo'])
+    vlib.standard_proof_phase(rep, 'C16', extra_targets=EXTRA_TARGETS)
     explore(rep, tier, seed)
     if rep.broken and not rep.violations and tier != 'thorough':
         explore(rep, 'thorough', seed + 1)
@@ -299,8 +332,15 @@ def explore(rep, tier, seed):
         key = '%s/%s/%s/%s/%s' % (c['method'], c['geom'], c['tm'], c['entry'], o['oc'])
         hist[key] = hist.get(key, 0) + 1
 
-        def fail(clause, what, c=c, o=o):
-            rep.failure(classify(c, clause, o), what, {'case': dict(c), 'clause': clause, 'outcome': {kk: (vv if not isinstance(vv, list) else vv[:6]) for kk, vv in o.items()}})
+        def fail(clause, what, c=c, o=o, ci=ci):
+            # the calls of one run share a process: an earlier call with the same adsorbate name and temperature but other properties is part of the input
+            prior = next((cases[j] for j in range(ci) if cases[j]['entry'] == 'iso' and cases[j]['T'] == c['T'] and cases[j]['props'] != c['props']
+                          and outs[j]['oc'] == 'Ok'), None) if c['entry'] == 'iso' else None
+            rep.failure(classify(c, clause, o), what + ('' if prior is None else ' [after an earlier psd_mesoporous call in this process with the same adsorbate name and '
+                                                        'temperature but properties %r; this call: %r]' % (
+                                                            {k: prior['props'][k] for k in ('molar_mass', 'liquid_density', 'surface_tension')},
+                                                            {k: c['props'][k] for k in ('molar_mass', 'liquid_density', 'surface_tension')})),
+                        {'case': dict(c), 'prior': prior, 'clause': clause, 'outcome': {kk: (vv if not isinstance(vv, list) else vv[:6]) for kk, vv in o.items()}})
         if model is not None and t is not None:
             code, agree, mn, mx = model[ci]
             ok = agree == 1 and (o['oc'] != 'Ok' or (mn, mx) == tuple(o['win']))
@@ -332,9 +372,16 @@ def explore(rep, tier, seed):
     rep.cov['distinct_nontrivial'] = len(nontrivial)
     rep.cov['rule'] = ('cases = random strictly increasing grids of 5-80 relative pressures with non-decreasing volumes (or one step), method x pore geometry x meniscus x '
                        'thickness model (Halsey, Harkins/Jura, zero, a callable) x Kelvin / Kelvin-KJS x branch x limits (default, random, on data points, one-sided, narrow), '
-                       'isotherm and raw entry points; non-trivial = distinct (method, geometry, thickness, kelvin, branch, entry, limit kind, size) that returned a '
+                       'isotherm and raw entry points; every case has its own adsorbate property set (two fixed, else random molar mass 2-150, density 0.3-3.2, surface tension '
+                       '1-80) carried under ONE adsorbate name by a fresh object or by one shared object edited between the calls, all calls in one process at two temperatures; non-trivial = distinct (method, geometry, thickness, kelvin, branch, entry, limit kind, size) that returned a '
                        'distribution and passed every clause of the oracle')
     rep.cov['input_distribution'] = dict(sorted(hist.items()))
+    iso_cases = [c for c in cases if c['entry'] == 'iso']
+    rep.cov['adsorbate_history'] = {'isotherm_calls_in_one_process': len(iso_cases), 'adsorbate_name': ADS_NAME,
+                                    'distinct_property_sets': len({tuple(sorted(c['props'].items())) for c in iso_cases}),
+                                    'fresh_object_calls': sum(1 for c in iso_cases if c['carrier'] == 'fresh'),
+                                    'shared_object_edited_between_calls': sum(1 for c in iso_cases if c['carrier'] == 'edited'),
+                                    'temperatures': sorted({c['T'] for c in iso_cases})}
     rep.cov['correspondence'] = {'cases': len(cases), 'disagreements': n_dis, 'tolerance': '1e-7 relative or 1e-9 of the array scale', 'interval_goals': len(goals),
                                  'interval_goals_failed': ng_bad,
                                  'what': 'psd_mesoporous / psd_pygapsdh / psd_bjh / psd_dollimore_heal vs Charact/PsdMeso.v: outcome class, limits exactly, widths, areas, '
@@ -356,6 +403,11 @@ def replay(d):
     c = d['replay']['case']
     if c.get('limits') is not None:
         c['limits'] = tuple(c['limits'])
+    prior = d['replay'].get('prior')
+    if prior:
+        if prior.get('limits') is not None:
+            prior['limits'] = tuple(prior['limits'])
+        print('earlier call in the same process (same adsorbate name and temperature, properties %r): %s' % (prior['props'], run_impl(prior)['oc']))
     o = run_impl(c)
     t, k = arrays(c)
     print('case:', {kk: (vv if not isinstance(vv, list) else '%d values' % len(vv)) for kk, vv in c.items()})
